@@ -220,6 +220,8 @@ def run(c, chk):
     else:
         chk.ok('R19.6', 'writers of cfg->pff', 'cfg_set_print_filter_func() only')
 
+    indent_writer(c, chk)
+
     # ---- R19.3 / R19.4 / R19.5 -------------------------------------------------------------------
     ex3 = sym.Explorer(c.modules, max_visits=4 if chk.tier == 'thorough' else 3, mod_sets=c.mod_sets, max_paths=200000)
     paths = [p for p in ex3.explore(op) if p.end == 'ret']
@@ -358,3 +360,57 @@ def list_commented_out(c):
             if '# ' in text:
                 return toks[index[text.index('# ')]][-1].ins
     return None
+
+
+def indent_writer(c, chk):
+    """R19.7: cfg_indent(fp, n) writes two blanks per level for EVERY n: a loop that writes "  " once per level, or a
+    field-width conversion of the empty string; not a slice of a constant run of blanks (which ends at its length)"""
+    chk.rule('R19.7', 'the indentation writer emits two blanks per level at every depth (no upper bound)')
+    f = c.need('cfg_indent')
+    ex = sym.Explorer(c.modules, max_visits=4, mod_sets=c.mod_sets, max_paths=2000)
+    n = 0
+    bad = None
+    for p in ex.explore(f):
+        if p.end != 'ret':
+            continue
+        toks = outmodel.tokens(p.events)
+        text, _ = outmodel.render(toks)
+        # how many levels does this path stand for?  the assumption that ends the loop: indent + c == 0
+        k = None
+        for cn, t, _i in p.assume:
+            if cn[0] == 'icmp' and cn[1] in ('eq', 'ne') and cn[3] == sym.C0 and ((cn[1] == 'eq') == t):
+                v = cn[2]
+                if v == ('p', 'indent'):
+                    k = 0
+                elif v[0] == 'bin' and v[1] == 'add' and v[2] == ('p', 'indent') and sym.is_const(v[3]):
+                    k = -v[3][1]
+            if cn[0] == 'icmp' and cn[1] in ('slt', 'sle', 'sgt', 'sge', 'ult', 'ule', 'ugt', 'uge') and sym.mentions(cn, lambda x: x == ('p', 'indent')):
+                # counting up: i < indent false with i constant
+                other = cn[2] if cn[3] == ('p', 'indent') else cn[3]
+                if sym.is_const(other) and ((cn[1] in ('slt', 'ult') and not t and cn[3] == ('p', 'indent')) or
+                                            (cn[1] in ('sgt', 'ugt') and not t and cn[2] == ('p', 'indent'))):
+                    k = other[1]
+        if all(t_[0] == 'lit' for t_ in toks) and set(text) <= {' '} and k is not None:
+            n += 1
+            if len(text) != 2 * k:
+                bad = bad or 'writes %d blank(s) for depth %d' % (len(text), k)
+            continue
+        # no loop: a single conversion
+        fps = [e for e in p.events if e.kind == 'call' and e.name == 'fprintf']
+        if len(fps) == 1 and fps[0].args[1][0] == 'str':
+            n += 1
+            fmt = fps[0].args[1][1]
+            a = fps[0].args
+            if fmt == '%*s' and len(a) == 4 and a[3] == ('str', '') and a[2] == ('bin', 'mul', ('p', 'indent'), ('c', 2)) or \
+                    (fmt == '%*s' and len(a) == 4 and a[3] == ('str', '') and sym.render(a[2]) in ('(indent mul 2)', '(2 mul indent)', '(indent shl 1)')):
+                continue
+            bad = bad or ('writes the indentation with the single conversion %r: a slice of a constant is limited by the length of that constant '
+                          '(deeper levels are all printed at the same depth)' % fmt)
+            continue
+        if toks:
+            bad = bad or 'writes %r, which is not recognised as two blanks per level' % text[:40]
+    if bad:
+        chk.fail('R19.7', 'indent-writer', c.where(f), 'cfg_indent() ' + bad)
+    elif n:
+        chk.ok('R19.7', 'cfg_indent: %d paths' % n, 'two blanks per loop iteration, one iteration per level', sample=True)
+    chk.floor('R19.7 paths of the indentation writer', n, 2)
